@@ -146,6 +146,9 @@ func TestVerifReplay(t *testing.T) {
 	if strings.Contains(s, "ASSERT-FAILED: "+label+"\n") {
 		return true, "assertion failed natively"
 	}
+	if strings.HasPrefix(label, "ordering:") && strings.Contains(s, "ORDERING-SITE: "+label+"\n") {
+		return true, "ordering violation observed in the symbolic heap; the native sequential run confirms only that the input reaches the site"
+	}
 	return false, "assertion held natively: " + firstLines(s, 3)
 }
 
